@@ -285,6 +285,64 @@ def converted_returned(ctx, res):
                         and isinstance(a.targets[0], ast.Name)
                         and isinstance(a.value, ast.Call)
                         and norm(a.value.func) == "super().validate"]
+                # ... or from the member traits' validate() applied to the
+                # components of the value (Tuple-like validators): what comes
+                # back is the converted component, the raw container must
+                # not be handed back in its place
+                inner = [c for c in ast.walk(fn) if isinstance(c, ast.Call)
+                         and isinstance(c.func, ast.Attribute)
+                         and c.func.attr == "validate"
+                         and norm(c.func.value) != "super()"
+                         and len(c.args) == 3
+                         and norm(c.args[2]) != valp
+                         and valp in {x.id for x in ast.walk(c.args[2])
+                                      if isinstance(x, ast.Name)}]
+                inner += [c for c in ast.walk(fn) if isinstance(c, ast.Call)
+                          and isinstance(c.func, ast.Attribute)
+                          and c.func.attr == "validate"
+                          and norm(c.func.value) != "super()"
+                          and len(c.args) == 3
+                          and isinstance(c.args[2], ast.Name)
+                          and c.args[2].id != valp
+                          and any(isinstance(g, ast.comprehension)
+                                  and valp in {x.id for x in ast.walk(g.iter)
+                                               if isinstance(x, ast.Name)}
+                                  and c.args[2].id in {
+                                      x.id for x in ast.walk(g.target)
+                                      if isinstance(x, ast.Name)}
+                                  for g in ast.walk(fn))]
+                if not conv and inner:
+                    n += 1
+                    key = f"{ci.name}.{name}"
+                    res.instance(key, mod.loc(fn), component_validation=len(inner))
+                    first = min(c.lineno for c in inner)
+                    okk = True
+                    for r in ast.walk(fn):
+                        if isinstance(r, ast.Return) and r.lineno >= first \
+                                and r.value is not None:
+                            raws = [x for x in ast.walk(r.value)
+                                    if isinstance(x, ast.Name) and x.id == valp]
+                            # the raw container as (an alternative of) the
+                            # result: `return value`, `value if c else new`
+                            direct = isinstance(r.value, ast.Name) and raws
+                            alt = isinstance(r.value, ast.IfExp) and (
+                                norm(r.value.body) == valp
+                                or norm(r.value.orelse) == valp)
+                            if direct or alt:
+                                okk = False
+                                res.violation(
+                                    f"{key}:returns-raw", mod.loc(r),
+                                    f"{key} validates the components of "
+                                    f"`{valp}` with the member traits "
+                                    f"(which may convert them) but can hand "
+                                    f"back the raw `{valp}` "
+                                    f"(`{norm(r.value)[:60]}`): components "
+                                    f"that merely compare equal to their "
+                                    f"converted form (True for 1, 1 for 1.0) "
+                                    f"would be stored unconverted")
+                    if okk:
+                        res.oblige(True, key, "", "")
+                    continue
                 if not conv:
                     continue
                 n += 1
